@@ -63,6 +63,9 @@ QUERIES = [
     ('except', 'select * except a4'),
     ('aggregate', 'select a2, count(*), ARRAY_AGG(a1) group by a2'),
     ('aggregate', 'select max(a1), min(a2)'),
+    ('aggregate', 'select a2, SUM(a3) group by a2'),
+    ('aggregate', 'select a1, ARRAY_AGG(a3), SUM(a3) group by a1'),
+    ('aggregate', 'select count(*), sum(a3)'),
     ('unnest', "select a1, unnest(a3.split(';'))"),
     ('join', 'select * join {J} on a2 == b1'),
     ('join', 'select a1, b.* left join {J} on a2 == b1'),
@@ -100,7 +103,8 @@ def generate(rng, tier, idx):
     world = {'rows': rows, 'join_rows': workload.gen_join_table(rng, rng.choice([0, 1, 2, 3, 4])),
              'header': rng.random() < 0.3, 'list_quirks': None, 'wal': rng.random() < 0.3}
     if rng.random() < 0.3:
-        world['list_quirks'] = {'shared': rng.random() < 0.5, 'ragged': rng.random() < 0.5, 'none_cell': rng.random() < 0.5, 'ragged_join': rng.random() < 0.5}
+        world['list_quirks'] = {'shared': rng.random() < 0.5, 'ragged': rng.random() < 0.5, 'none_cell': rng.random() < 0.5, 'ragged_join': rng.random() < 0.5,
+                                'list_cells': rng.random() < 0.3}
     nops = rng.choice([1, 2, 2, 3, 3, 4, 5, 6])
     ops = []
     for _ in range(nops):
@@ -153,6 +157,7 @@ class World(object):
         self.w = fsseam.reset_work_dir()
         rows = [list(r) for r in spec['rows']]
         jrows = [list(r) for r in spec['join_rows']]
+        self.has_list_cells = False
         self.header = ['id', 'name', 'tag'] if spec['header'] else None
         self.jheader = ['key', 'jval', 'jtag'] if spec['header'] else None
         # python lists (may be quirky)
@@ -167,6 +172,12 @@ class World(object):
                 self.A.append(['1', 'v1', 'r', 'extra'])
             if q.get('none_cell') and self.A:
                 self.A[0][-1] = None
+            if q.get('list_cells') and self.A:
+                # mutable cells (e.g. the result of an earlier ARRAY_AGG query): outside the property's stated quantifier of
+                # string / None cells, included because an in-place operation on such a cell is still a change of the source
+                for r in self.A:
+                    r[-1] = [r[0], 'w']
+                self.has_list_cells = True
             if q.get('ragged_join') and self.B:
                 self.B[0] = self.B[0][:2]
                 if len(self.B) > 1:
@@ -260,8 +271,8 @@ class World(object):
             for r in out_rows:
                 if isinstance(r, list):
                     for i in range(len(r)):
-                        if isinstance(r[i], list):
-                            r[i].append('MUT')
+                        if isinstance(r[i], list) and not self.has_list_cells:
+                            r[i].append('MUT')      # (a list cell of the source may legitimately reappear in the output)
                         r[i] = 'MUT'
                     r.append('MUT')
             if self.A != self.A_snap or self.B != self.B_snap:
